@@ -403,6 +403,22 @@ def local_defs(func, name):
     return out
 
 
+def else_branch(if_node):
+    """The statements executed when the test of ``if_node`` is false: its orelse, or - in the
+    canonical guard-clause form (body always leaves the block) - the rest of the enclosing
+    block.  [] when the false branch is empty."""
+    if if_node.orelse:
+        return list(if_node.orelse)
+    if not always_exits(if_node.body):
+        return []
+    par = getattr(if_node, '_parent', None)
+    for fld in ('body', 'orelse', 'finalbody'):
+        blk = getattr(par, fld, None)
+        if isinstance(blk, list) and if_node in blk:
+            return blk[blk.index(if_node) + 1:]
+    return []
+
+
 def flag_true_implies(func, name, target, seen=None):
     """Whenever the local flag ``name`` is truthy, did ``target`` hold where it was set?
     Every definition is a falsy constant, or sits under guards implying target, or is an
